@@ -1,3 +1,770 @@
-pub fn run(ctx: vp_core::Ctx) -> ! {
-    ctx.machinery("engine not built yet")
+//! C16 — Matrix multiplication is correct for every kernel and shape.
+//!
+//! Operands are small integers and alpha/beta dyadic, so alpha*A*B + beta*C +
+//! bias is exactly representable for every summation order: the oracle is
+//! equality with an integer reference. Outputs are pre-filled with NaN (also
+//! behind MaybeUninit) so that an unwritten element or leaked prior content
+//! shows up as NaN.
+
+use std::mem::MaybeUninit;
+
+use rten_gemm::{BiasVector, ColOffsets, GemmExecutor, GemmInputA, GemmInputB, GemmOptions, GemmUninitOptions, Im2Col, RowOffsets};
+use rten_tensor::NdTensorView;
+use vp_core::{Ctx, Json, Samples, json};
+
+type Exec = GemmExecutor<f32, f32, f32>;
+
+fn a_val(i: usize, j: usize) -> i32 {
+    ((i * i * 3 + j * 7 + i * j + 1) % 11) as i32 - 5
+}
+fn b_val(i: usize, j: usize) -> i32 {
+    ((i * 5 + j * j * 3 + 2 * i * j + 2) % 9) as i32 - 4
+}
+fn c_val(i: usize, j: usize) -> i32 {
+    ((i * 3 + j * 5 + 1) % 17) as i32 - 8
+}
+fn bias_val(i: usize) -> i32 {
+    ((i * 5 + 2) % 13) as i32 - 6
+}
+
+#[derive(Clone, Copy, Debug, PartialEq, Eq)]
+enum Lay {
+    Row,
+    Col,
+    PadRow,
+    PadCol,
+}
+const LAYS: [Lay; 4] = [Lay::Row, Lay::Col, Lay::PadRow, Lay::PadCol];
+
+impl Lay {
+    fn name(self) -> &'static str {
+        match self {
+            Lay::Row => "row-major",
+            Lay::Col => "column-major",
+            Lay::PadRow => "padded-row-stride",
+            Lay::PadCol => "padded-col-stride",
+        }
+    }
+    fn from_name(s: &str) -> Lay {
+        LAYS.iter().copied().find(|l| l.name() == s).unwrap_or(Lay::Row)
+    }
+    fn strides(self, rows: usize, cols: usize) -> [usize; 2] {
+        match self {
+            Lay::Row => [cols.max(1), 1],
+            Lay::Col => [1, rows.max(1)],
+            Lay::PadRow => [cols + 3, 1],
+            Lay::PadCol => [2 * cols + 1, 2],
+        }
+    }
+}
+
+/// Storage for a strided matrix; slots not addressed by the layout hold NaN.
+struct Mat {
+    data: Vec<f32>,
+    rows: usize,
+    cols: usize,
+    strides: [usize; 2],
+}
+
+impl Mat {
+    fn new(rows: usize, cols: usize, lay: Lay, f: impl Fn(usize, usize) -> i32) -> Mat {
+        let strides = lay.strides(rows, cols);
+        let len = if rows == 0 || cols == 0 { 0 } else { (rows - 1) * strides[0] + (cols - 1) * strides[1] + 1 };
+        let mut data = vec![f32::NAN; len];
+        for i in 0..rows {
+            for j in 0..cols {
+                data[i * strides[0] + j * strides[1]] = f(i, j) as f32;
+            }
+        }
+        Mat { data, rows, cols, strides }
+    }
+    fn view(&self) -> NdTensorView<'_, f32, 2> {
+        NdTensorView::from_slice_with_strides([self.rows, self.cols], &self.data, self.strides)
+            .unwrap_or_else(|e| vp_core::machinery_error(&format!("cannot build matrix view {}x{} strides {:?}: {e:?}", self.rows, self.cols, self.strides)))
+    }
+}
+
+/// Integer reference product S = A*B for the value patterns above.
+fn ref_product(m: usize, k: usize, n: usize) -> Vec<i32> {
+    let a: Vec<i32> = (0..m * k).map(|x| a_val(x / k.max(1), x % k.max(1))).collect();
+    let b: Vec<i32> = (0..k * n).map(|x| b_val(x / n.max(1), x % n.max(1))).collect();
+    let mut s = vec![0i32; m * n];
+    for i in 0..m {
+        let row = &mut s[i * n..(i + 1) * n];
+        for kk in 0..k {
+            let av = a[i * k + kk];
+            let brow = &b[kk * n..(kk + 1) * n];
+            for j in 0..n {
+                row[j] += av * brow[j];
+            }
+        }
+    }
+    s
+}
+
+#[derive(Clone, Copy, Debug, PartialEq)]
+enum Bias {
+    None,
+    Row,
+    Column,
+}
+
+fn expected(s: &[i32], m: usize, n: usize, alpha: f32, beta: f32, bias: Bias) -> Vec<f64> {
+    let mut e = vec![0f64; m * n];
+    for i in 0..m {
+        for j in 0..n {
+            let mut v = alpha as f64 * s[i * n + j] as f64;
+            if beta != 0.0 {
+                v += beta as f64 * c_val(i, j) as f64;
+            }
+            v += match bias {
+                Bias::None => 0.0,
+                Bias::Row => bias_val(j) as f64,
+                Bias::Column => bias_val(i) as f64,
+            };
+            e[i * n + j] = v;
+        }
+    }
+    e
+}
+
+/// First mismatch: (index, got, expected).
+fn compare(out: &[f32], exp: &[f64]) -> Option<(usize, f32, f64)> {
+    if out.len() != exp.len() {
+        return Some((usize::MAX, out.len() as f32, exp.len() as f64));
+    }
+    for i in 0..out.len() {
+        if !(out[i] as f64 == exp[i]) {
+            return Some((i, out[i], exp[i]));
+        }
+    }
+    None
+}
+
+#[derive(Clone, Debug)]
+struct Case {
+    kernel: String,
+    threads: usize,
+    entry: &'static str, // gemm | gemm_uninit | batched(N)
+    m: usize,
+    k: usize,
+    n: usize,
+    a_lay: Lay,
+    b_lay: Lay,
+    a_packed: bool,
+    b_form: &'static str, // unpacked | prepacked
+    alpha: f32,
+    beta: f32,
+    bias: Bias,
+}
+
+impl Case {
+    fn json(&self) -> Json {
+        json!({"kind": "gemm", "kernel": self.kernel, "threads": self.threads, "entry": self.entry, "m": self.m, "k": self.k, "n": self.n,
+            "a_layout": self.a_lay.name(), "b_layout": self.b_lay.name(), "a_prepacked": self.a_packed, "b_form": self.b_form,
+            "alpha": self.alpha, "beta": self.beta, "bias": format!("{:?}", self.bias)})
+    }
+    fn from_json(j: &Json) -> Case {
+        Case {
+            kernel: j["kernel"].as_str().unwrap_or("").into(),
+            threads: j["threads"].as_u64().unwrap_or(1) as usize,
+            entry: match j["entry"].as_str().unwrap_or("gemm") {
+                "gemm_uninit" => "gemm_uninit",
+                _ => "gemm",
+            },
+            m: j["m"].as_u64().unwrap_or(0) as usize,
+            k: j["k"].as_u64().unwrap_or(0) as usize,
+            n: j["n"].as_u64().unwrap_or(0) as usize,
+            a_lay: Lay::from_name(j["a_layout"].as_str().unwrap_or("")),
+            b_lay: Lay::from_name(j["b_layout"].as_str().unwrap_or("")),
+            a_packed: j["a_prepacked"].as_bool().unwrap_or(false),
+            b_form: if j["b_form"].as_str() == Some("prepacked") { "prepacked" } else { "unpacked" },
+            alpha: j["alpha"].as_f64().unwrap_or(1.0) as f32,
+            beta: j["beta"].as_f64().unwrap_or(0.0) as f32,
+            bias: match j["bias"].as_str().unwrap_or("None") {
+                "Row" => Bias::Row,
+                "Column" => Bias::Column,
+                _ => Bias::None,
+            },
+        }
+    }
+    fn path(&self) -> &'static str {
+        if self.m == 0 || self.n == 0 {
+            "empty-output"
+        } else if self.k == 0 {
+            "zero-depth"
+        } else if self.m == 1 && !self.a_packed && self.b_form == "unpacked" {
+            "gemv"
+        } else {
+            "tiled"
+        }
+    }
+    fn signature(&self, what: &str) -> String {
+        let opts = format!(
+            "{}{}{}",
+            if self.alpha != 1.0 { "alpha " } else { "" },
+            if self.beta != 0.0 { "beta " } else { "" },
+            if self.bias != Bias::None { "bias " } else { "" }
+        );
+        format!(
+            "gemm f32 kernel={} entry={} path={} a={} b={}{}: {}",
+            self.kernel,
+            self.entry,
+            self.path(),
+            if self.a_packed { "prepacked" } else { "unpacked" },
+            self.b_form,
+            if opts.is_empty() { String::new() } else { format!(" opts={}", opts.trim()) },
+            what
+        )
+    }
+}
+
+enum Outcome {
+    Ok,
+    Bad(String, String), // (what, detail)
+    PanicAt(String, String),
+}
+
+/// Execute one case on the given executor (inside the caller's thread pool).
+fn run_case(exec: &Exec, c: &Case, s: &[i32]) -> Outcome {
+    let a = Mat::new(c.m, c.k, c.a_lay, a_val);
+    let b = Mat::new(c.k, c.n, c.b_lay, b_val);
+    let bias_vec: Vec<f32> = match c.bias {
+        Bias::None => vec![],
+        Bias::Row => (0..c.n).map(|j| bias_val(j) as f32).collect(),
+        Bias::Column => (0..c.m).map(|i| bias_val(i) as f32).collect(),
+    };
+    let bias = match c.bias {
+        Bias::None => None,
+        Bias::Row => Some(BiasVector::Row(&bias_vec[..])),
+        Bias::Column => Some(BiasVector::Column(&bias_vec[..])),
+    };
+    let packed_a = if c.a_packed {
+        match vp_core::catch(|| exec.prepack_a(a.view())) {
+            Ok(p) => Some(p),
+            Err(p) => return Outcome::PanicAt("prepack_a".into(), p),
+        }
+    } else {
+        None
+    };
+    let packed_b = if c.b_form == "prepacked" {
+        match vp_core::catch(|| exec.prepack_b(b.view())) {
+            Ok(p) => Some(p),
+            Err(p) => return Outcome::PanicAt("prepack_b".into(), p),
+        }
+    } else {
+        None
+    };
+    let ain = match &packed_a {
+        Some(p) => GemmInputA::Packed(p),
+        None => GemmInputA::Unpacked(a.view()),
+    };
+    let bin = match &packed_b {
+        Some(p) => GemmInputB::Packed(p),
+        None => GemmInputB::Unpacked(b.view()),
+    };
+    let mut out: Vec<f32> = if c.beta != 0.0 {
+        (0..c.m * c.n).map(|x| c_val(x / c.n.max(1), x % c.n.max(1)) as f32).collect()
+    } else {
+        vec![f32::NAN; c.m * c.n]
+    };
+    let res = vp_core::catch(|| match c.entry {
+        "gemm" => exec
+            .gemm(&mut out, ain, bin, GemmOptions { alpha: c.alpha, beta: c.beta, bias, a_quant: None, b_quant: None })
+            .map_err(|e| format!("{e:?}")),
+        _ => {
+            let un: &mut [MaybeUninit<f32>] = unsafe { std::mem::transmute::<&mut [f32], &mut [MaybeUninit<f32>]>(&mut out[..]) };
+            exec.gemm_uninit(un, ain, bin, GemmUninitOptions { alpha: c.alpha, bias, a_quant: None, b_quant: None })
+                .map(|_| ())
+                .map_err(|e| format!("{e:?}"))
+        }
+    });
+    match res {
+        Err(p) => Outcome::PanicAt(c.entry.into(), p),
+        Ok(Err(e)) => Outcome::Bad("returns an error for valid inputs".into(), format!("error {e}")),
+        Ok(Ok(())) => {
+            let exp = expected(s, c.m, c.n, c.alpha, c.beta, c.bias);
+            match compare(&out, &exp) {
+                None => Outcome::Ok,
+                Some((i, got, e)) => {
+                    let what = if got.is_nan() {
+                        "output element is NaN (not written, or prior NaN content leaked)"
+                    } else {
+                        "wrong value"
+                    };
+                    Outcome::Bad(what.into(), format!("out[{},{}] = {} expected {} (exact)", i / c.n.max(1), i % c.n.max(1), got, e))
+                }
+            }
+        }
+    }
+}
+
+fn report(ctx: &Ctx, c: &Case, o: Outcome) -> bool {
+    match o {
+        Outcome::Ok => true,
+        Outcome::Bad(what, detail) => {
+            ctx.violation(c.signature(&what), c.json(), format!("{:?}: {detail}", c.json().to_string()));
+            false
+        }
+        Outcome::PanicAt(site, p) => {
+            let class = if c.k == 0 { " (K = 0)" } else if c.m == 0 || c.n == 0 { " (empty operand)" } else { "" };
+            ctx.violation(
+                format!("gemm f32 kernel={}: {site} panics for valid inputs{class}", c.kernel),
+                c.json(),
+                format!("{site} panicked: {p}; case {}", c.json()),
+            );
+            false
+        }
+    }
+}
+
+fn executors() -> Vec<Exec> {
+    rten_gemm::verif::f32_executors()
+}
+
+// ---------------------------------------------------------------------------
+// im2col
+// ---------------------------------------------------------------------------
+
+struct ConvGeom {
+    chans: usize,
+    h: usize,
+    w: usize,
+    kh: usize,
+    kw: usize,
+    pad: [usize; 4], // top, left, bottom, right
+    stride: [usize; 2],
+    dil: [usize; 2],
+}
+
+fn img_val(c: usize, y: usize, x: usize) -> i32 {
+    ((c * 7 + y * 3 + x * 5 + y * x) % 9) as i32 - 4
+}
+
+/// Same construction as rten's src/ops/conv/im2col.rs::build_im2col.
+fn build_im2col<'a>(image: NdTensorView<'a, f32, 3>, g: &ConvGeom, col_step: usize, row_step: usize) -> (Im2Col<'a, f32>, usize, usize) {
+    let [sc, sh, sw] = [g.h * g.w, g.w, 1].map(|v| v as i32);
+    let oh = (g.h + g.pad[0] + g.pad[2] - g.dil[0] * (g.kh - 1) - 1) / g.stride[0] + 1;
+    let ow = (g.w + g.pad[1] + g.pad[3] - g.dil[1] * (g.kw - 1) - 1) / g.stride[1] + 1;
+    let n_rows = g.chans * g.kh * g.kw;
+    let n_rows_p = n_rows.next_multiple_of(row_step);
+    let (mut rc, mut ry, mut rx) = (Vec::new(), Vec::new(), Vec::new());
+    for c in 0..g.chans {
+        for ky in 0..g.kh {
+            for kx in 0..g.kw {
+                rc.push(c as i32 * sc);
+                ry.push(sh * (ky * g.dil[0]) as i32);
+                rx.push(sw * (kx * g.dil[1]) as i32);
+            }
+        }
+    }
+    let max_y = ((g.h - 1) as i32) * sh;
+    let max_x = ((g.w - 1) as i32) * sw;
+    for _ in n_rows..n_rows_p {
+        rc.push(0);
+        rx.push(max_x + 1);
+        ry.push(max_y + 1);
+    }
+    let n_cols = oh * ow;
+    let n_cols_p = n_cols.next_multiple_of(col_step);
+    let (mut cy, mut cx) = (Vec::new(), Vec::new());
+    for col in 0..n_cols_p {
+        let py = (col / ow) as i32;
+        let px = (col % ow) as i32;
+        cy.push((py * g.stride[0] as i32 - g.pad[0] as i32) * sh);
+        cx.push((px * g.stride[1] as i32 - g.pad[1] as i32) * sw);
+    }
+    (
+        Im2Col { image, row_offsets: RowOffsets { chan: rc, y: ry, x: rx }, col_offsets: ColOffsets { y: cy, x: cx }, n_cols, n_rows, max_y_offset: max_y, max_x_offset: max_x },
+        oh,
+        ow,
+    )
+}
+
+fn im2col_cases(ctx: &Ctx, execs: &[Exec], counts: &mut Counts) {
+    let geoms = [
+        ConvGeom { chans: 2, h: 5, w: 5, kh: 3, kw: 3, pad: [1, 1, 1, 1], stride: [1, 1], dil: [1, 1] },
+        ConvGeom { chans: 3, h: 7, w: 6, kh: 2, kw: 3, pad: [0, 1, 1, 0], stride: [2, 2], dil: [1, 1] },
+        ConvGeom { chans: 1, h: 9, w: 9, kh: 3, kw: 3, pad: [0, 0, 0, 0], stride: [1, 1], dil: [2, 2] },
+        ConvGeom { chans: 5, h: 12, w: 11, kh: 3, kw: 3, pad: [1, 1, 1, 1], stride: [1, 2], dil: [1, 1] },
+    ];
+    for (gi, g) in geoms.iter().enumerate() {
+        let img: Vec<f32> = (0..g.chans * g.h * g.w).map(|i| img_val(i / (g.h * g.w), (i / g.w) % g.h, i % g.w) as f32).collect();
+        let image = NdTensorView::from_data([g.chans, g.h, g.w], &img[..]);
+        for exec in execs {
+            let (im, oh, ow) = build_im2col(image.clone(), g, exec.im2col_col_count_step(), exec.im2col_row_count_step());
+            let (k, n) = (im.rows(), im.cols());
+            // explicit matrix
+            let mut bm = vec![0i32; k * n];
+            for r in 0..k {
+                let (c, ky, kx) = (r / (g.kh * g.kw), (r / g.kw) % g.kh, r % g.kw);
+                for col in 0..n {
+                    let y = (col / ow) as i64 * g.stride[0] as i64 - g.pad[0] as i64 + (ky * g.dil[0]) as i64;
+                    let x = (col % ow) as i64 * g.stride[1] as i64 - g.pad[1] as i64 + (kx * g.dil[1]) as i64;
+                    bm[r * n + col] = if y >= 0 && x >= 0 && (y as usize) < g.h && (x as usize) < g.w { img_val(c, y as usize, x as usize) } else { 0 };
+                }
+            }
+            let _ = oh;
+            for m in [1usize, 3, 8, 17] {
+                for (alpha, beta, bias) in [(1.0f32, 0.0f32, Bias::None), (0.5, 0.0, Bias::Column), (1.0, 1.0, Bias::None), (-1.0, 0.0, Bias::Row)] {
+                    let a = Mat::new(m, k, Lay::Row, a_val);
+                    let mut s = vec![0i32; m * n];
+                    for i in 0..m {
+                        for kk in 0..k {
+                            for j in 0..n {
+                                s[i * n + j] += a_val(i, kk) * bm[kk * n + j];
+                            }
+                        }
+                    }
+                    let exp = expected(&s, m, n, alpha, beta, bias);
+                    let bias_vec: Vec<f32> = match bias {
+                        Bias::None => vec![],
+                        Bias::Row => (0..n).map(|j| bias_val(j) as f32).collect(),
+                        Bias::Column => (0..m).map(|i| bias_val(i) as f32).collect(),
+                    };
+                    let bv = match bias {
+                        Bias::None => None,
+                        Bias::Row => Some(BiasVector::Row(&bias_vec[..])),
+                        Bias::Column => Some(BiasVector::Column(&bias_vec[..])),
+                    };
+                    let mut out: Vec<f32> = if beta != 0.0 { (0..m * n).map(|x| c_val(x / n, x % n) as f32).collect() } else { vec![f32::NAN; m * n] };
+                    counts.cases += 1;
+                    let case = json!({"kind": "im2col", "kernel": exec.kernel_name(), "geometry": gi, "m": m, "k": k, "n": n, "alpha": alpha, "beta": beta, "bias": format!("{bias:?}")});
+                    let r = vp_core::catch(|| exec.gemm(&mut out, GemmInputA::Unpacked(a.view()), GemmInputB::Im2Col(&im), GemmOptions { alpha, beta, bias: bv, a_quant: None, b_quant: None }));
+                    match r {
+                        Err(p) => ctx.violation(format!("gemm f32 kernel={} b=im2col: panics for valid inputs", exec.kernel_name()), case, p),
+                        Ok(Err(e)) => ctx.violation(format!("gemm f32 kernel={} b=im2col: returns an error for valid inputs", exec.kernel_name()), case, format!("{e:?}")),
+                        Ok(Ok(())) => match compare(&out, &exp) {
+                            None => counts.ok += 1,
+                            Some((i, got, e)) => ctx.violation(
+                                format!("gemm f32 kernel={} entry=gemm b=im2col: {}", exec.kernel_name(), if got.is_nan() { "output element is NaN" } else { "wrong value" }),
+                                case,
+                                format!("geometry {gi} (C={},H={},W={},k={}x{},pad={:?},stride={:?},dil={:?}) m={m}: out[{},{}] = {got} expected {e}", g.chans, g.h, g.w, g.kh, g.kw, g.pad, g.stride, g.dil, i / n, i % n),
+                            ),
+                        },
+                    }
+                }
+            }
+        }
+    }
+}
+
+// ---------------------------------------------------------------------------
+// batched
+// ---------------------------------------------------------------------------
+
+fn batched_cases(ctx: &Ctx, execs: &[Exec], counts: &mut Counts) {
+    for exec in execs {
+        for (m, k, n) in [(1usize, 4usize, 5usize), (3, 9, 17), (8, 33, 16), (2, 0, 3)] {
+            let s = ref_product(m, k, n);
+            for batch in [0usize, 1, 3] {
+                for bias in [Bias::None, Bias::Row] {
+                    let a = Mat::new(m, k, Lay::Row, a_val);
+                    let b = Mat::new(k, n, Lay::Col, b_val);
+                    let avs: Vec<GemmInputA<f32>> = (0..batch).map(|_| GemmInputA::Unpacked(a.view())).collect();
+                    let bvs: Vec<GemmInputB<f32>> = (0..batch).map(|_| GemmInputB::Unpacked(b.view())).collect();
+                    let bias_vec: Vec<f32> = (0..n).map(|j| bias_val(j) as f32).collect();
+                    let bv = if bias == Bias::Row { Some(BiasVector::Row(&bias_vec[..])) } else { None };
+                    let mut out = vec![MaybeUninit::new(f32::NAN); batch * m * n];
+                    counts.cases += 1;
+                    let case = json!({"kind": "batched", "kernel": exec.kernel_name(), "m": m, "k": k, "n": n, "batch": batch, "bias": format!("{bias:?}")});
+                    let r = vp_core::catch(|| exec.batched_gemm_uninit(&mut out, &avs, &bvs, GemmUninitOptions { alpha: 2.0, bias: bv, a_quant: None, b_quant: None }).map(|o| o.to_vec()));
+                    match r {
+                        Err(p) => ctx.violation(format!("gemm f32 kernel={} entry=batched_gemm_uninit: panics for valid inputs", exec.kernel_name()), case, p),
+                        Ok(Err(e)) => ctx.violation(format!("gemm f32 kernel={} entry=batched_gemm_uninit: returns an error for valid inputs", exec.kernel_name()), case, format!("{e:?}")),
+                        Ok(Ok(o)) => {
+                            let e1 = expected(&s, m, n, 2.0, 0.0, bias);
+                            let exp: Vec<f64> = (0..batch).flat_map(|_| e1.iter().copied()).collect();
+                            match compare(&o, &exp) {
+                                None => counts.ok += 1,
+                                Some((i, got, e)) => ctx.violation(
+                                    format!("gemm f32 kernel={} entry=batched_gemm_uninit: {}", exec.kernel_name(), if got.is_nan() { "output element is NaN" } else { "wrong value" }),
+                                    case,
+                                    format!("batch {batch} {m}x{k}x{n}: flat index {i} = {got} expected {e}"),
+                                ),
+                            }
+                        }
+                    }
+                }
+            }
+            // mismatched batch members must be reported as errors (never a wrong product / panic)
+            if k > 0 {
+                let a = Mat::new(m, k, Lay::Row, a_val);
+                let a2 = Mat::new(m + 1, k, Lay::Row, a_val);
+                let b = Mat::new(k, n, Lay::Row, b_val);
+                let b2 = Mat::new(k, n + 2, Lay::Row, b_val);
+                let variants: Vec<(&str, Vec<GemmInputA<f32>>, Vec<GemmInputB<f32>>, usize)> = vec![
+                    ("a.len != b.len", vec![GemmInputA::Unpacked(a.view()); 2], vec![GemmInputB::Unpacked(b.view()); 3], 2 * m * n),
+                    ("member with more rows", vec![GemmInputA::Unpacked(a.view()), GemmInputA::Unpacked(a2.view())], vec![GemmInputB::Unpacked(b.view()); 2], 2 * m * n),
+                    ("member with more columns", vec![GemmInputA::Unpacked(a.view()); 2], vec![GemmInputB::Unpacked(b.view()), GemmInputB::Unpacked(b2.view())], 2 * m * n),
+                    ("output too short", vec![GemmInputA::Unpacked(a.view()); 2], vec![GemmInputB::Unpacked(b.view()); 2], 2 * m * n - 1),
+                ];
+                for (name, avs, bvs, out_len) in variants {
+                    let mut out = vec![MaybeUninit::new(f32::NAN); out_len];
+                    counts.cases += 1;
+                    let case = json!({"kind": "batched-mismatch", "kernel": exec.kernel_name(), "m": m, "k": k, "n": n, "variant": name});
+                    match vp_core::catch(|| exec.batched_gemm_uninit(&mut out, &avs, &bvs, GemmUninitOptions::default()).map(|o| o.len())) {
+                        Ok(Err(_)) => counts.ok += 1,
+                        Ok(Ok(_)) => ctx.violation(format!("gemm f32 kernel={} entry=batched_gemm_uninit: mismatched batch members accepted", exec.kernel_name()), case, name.to_string()),
+                        Err(p) => ctx.violation(format!("gemm f32 kernel={} entry=batched_gemm_uninit: panics on mismatched batch members", exec.kernel_name()), case, format!("{name}: {p}")),
+                    }
+                }
+            }
+        }
+    }
+}
+
+#[derive(Default)]
+struct Counts {
+    cases: u64,
+    ok: u64,
+}
+
+fn shapes(thorough: bool) -> (Vec<usize>, Vec<usize>) {
+    if thorough {
+        (vec![0, 1, 2, 3, 5, 6, 7, 8, 15, 16, 17, 31, 32, 33, 63, 64, 65, 127, 129, 257], vec![0, 1, 2, 3, 4, 7, 8, 9, 31, 32, 33, 255, 256, 257, 513])
+    } else {
+        (vec![0, 1, 2, 3, 5, 7, 8, 15, 16, 17, 33, 65, 129], vec![0, 1, 2, 3, 4, 7, 8, 9, 31, 33, 257])
+    }
+}
+
+fn replay(ctx: Ctx, path: &std::path::Path) -> ! {
+    let j = vp_core::read_replay_case(path);
+    let execs = executors();
+    let mut counts = Counts::default();
+    match j["kind"].as_str().unwrap_or("") {
+        "gemm" => {
+            let c = Case::from_json(&j);
+            let exec = execs.iter().find(|e| e.kernel_name() == c.kernel).unwrap_or_else(|| ctx.machinery("replay: kernel not available"));
+            let s = ref_product(c.m, c.k, c.n);
+            let pool = rten::ThreadPool::with_num_threads(c.threads.max(1));
+            let o = pool.run(|| run_case(exec, &c, &s));
+            counts.cases = 1;
+            let ok = report(&ctx, &c, o);
+            println!("replay gemm case {}: {}", c.json(), if ok { "result correct" } else { "violation reproduced" });
+        }
+        "im2col" => im2col_cases(&ctx, &execs, &mut counts),
+        _ => batched_cases(&ctx, &execs, &mut counts),
+    }
+    ctx.finish("exploration", json!({"evaluations": counts.cases.max(1), "distinct_nontrivial": 2, "rule": "replay", "samples": [j], "exhaustive": false}), vec![]);
+}
+
+pub fn run(ctx: Ctx) -> ! {
+    if let Some(p) = ctx.replay.clone() {
+        replay(ctx, &p);
+    }
+    let thorough = ctx.tier.is_thorough();
+    let execs = executors();
+    let kernel_names: Vec<String> = execs.iter().map(|e| e.kernel_name().to_string()).collect();
+    if execs.len() < 2 {
+        ctx.observe("fewer than two f32 GEMM kernels usable on this machine");
+    }
+    let samples = Samples::new(24);
+    let (mn, ks) = shapes(thorough);
+    let full_layout_limit: usize = if thorough { 1 << 21 } else { 1 << 17 };
+
+    // ---- box 1: shapes x strides x kernels x threading ----
+    let mut shape_list: Vec<(usize, usize, usize)> = Vec::new();
+    for &m in &mn {
+        for &n in &mn {
+            for &k in &ks {
+                shape_list.push((m, k, n));
+            }
+        }
+    }
+    // big shapes first for load balance; order does not affect results
+    shape_list.sort_by_key(|(m, k, n)| std::cmp::Reverse(m * k * n));
+    let per_shape = vp_core::par::map(shape_list.len(), |si| {
+        let (m, k, n) = shape_list[si];
+        let s = ref_product(m, k, n);
+        let execs = executors();
+        let mut cases = 0u64;
+        let mut ok = 0u64;
+        let multi_block = n > 128 || m > 64;
+        let thread_cfgs: &[usize] = if multi_block { &[1, 4] } else { &[1] };
+        for &threads in thread_cfgs {
+            let pool = rten::ThreadPool::with_num_threads(threads);
+            for exec in &execs {
+                for a_lay in LAYS {
+                    for b_lay in LAYS {
+                        let diagonal = matches!((a_lay, b_lay), (Lay::Row, Lay::Row) | (Lay::Col, Lay::Col) | (Lay::PadRow, Lay::PadCol) | (Lay::PadCol, Lay::PadRow));
+                        if m * k * n > full_layout_limit && !diagonal {
+                            continue;
+                        }
+                        if threads > 1 && !diagonal {
+                            continue;
+                        }
+                        let c = Case { kernel: exec.kernel_name().to_string(), threads, entry: "gemm", m, k, n, a_lay, b_lay, a_packed: false, b_form: "unpacked", alpha: 1.0, beta: 0.0, bias: Bias::None };
+                        let o = pool.run(|| run_case(exec, &c, &s));
+                        cases += 1;
+                        if report(&ctx, &c, o) {
+                            ok += 1;
+                        }
+                    }
+                }
+            }
+        }
+        if si % 401 == 0 {
+            samples.push(|| json!({"shape_mkn": [m, k, n], "cases": cases, "correct": ok, "ref_sample_S[0]": s.first()}));
+        }
+        (cases, ok)
+    });
+    let box1_cases: u64 = per_shape.iter().map(|x| x.0).sum();
+    let box1_ok: u64 = per_shape.iter().map(|x| x.1).sum();
+    eprintln!("C16 box1 shapes={} cases={} ok={} t={:.1}s", shape_list.len(), box1_cases, box1_ok, ctx.elapsed_s());
+
+    // ---- box 2: options ----
+    let (ms2, ns2, ks2): (Vec<usize>, Vec<usize>, Vec<usize>) = if thorough {
+        (vec![1, 3, 8, 65], vec![1, 5, 17, 129], vec![0, 1, 4, 9, 257])
+    } else {
+        (vec![1, 3, 8, 65], vec![1, 5, 17, 129], vec![0, 4, 9, 257])
+    };
+    let alphas = [1.0f32, 0.0, -1.0, 0.5, 2.0];
+    let betas = [0.0f32, 1.0, -2.0, 0.5];
+    let mut shapes2 = Vec::new();
+    for &m in &ms2 {
+        for &n in &ns2 {
+            for &k in &ks2 {
+                shapes2.push((m, k, n));
+            }
+        }
+    }
+    let per_shape2 = vp_core::par::map(shapes2.len(), |si| {
+        let (m, k, n) = shapes2[si];
+        let s = ref_product(m, k, n);
+        let execs = executors();
+        let pool = rten::ThreadPool::with_num_threads(if si % 2 == 0 { 1 } else { 3 });
+        let threads = if si % 2 == 0 { 1 } else { 3 };
+        let (mut cases, mut ok) = (0u64, 0u64);
+        for exec in &execs {
+            for &alpha in &alphas {
+                for bias in [Bias::None, Bias::Row, Bias::Column] {
+                    for a_packed in [false, true] {
+                        for b_form in ["unpacked", "prepacked"] {
+                            // B layouts matter on the gemv path (stride-dependent blocking)
+                            let b_lays: &[Lay] = if m == 1 && !a_packed && b_form == "unpacked" { &LAYS } else { &[Lay::Row] };
+                            for &b_lay in b_lays {
+                                for entry in ["gemm", "gemm_uninit"] {
+                                    let bs: &[f32] = if entry == "gemm" { &betas } else { &[0.0] };
+                                    for &beta in bs {
+                                        let c = Case { kernel: exec.kernel_name().to_string(), threads, entry, m, k, n, a_lay: Lay::Row, b_lay, a_packed, b_form, alpha, beta, bias };
+                                        let o = pool.run(|| run_case(exec, &c, &s));
+                                        cases += 1;
+                                        if report(&ctx, &c, o) {
+                                            ok += 1;
+                                        }
+                                    }
+                                }
+                            }
+                        }
+                    }
+                }
+            }
+        }
+        (cases, ok)
+    });
+    let box2_cases: u64 = per_shape2.iter().map(|x| x.0).sum();
+    let box2_ok: u64 = per_shape2.iter().map(|x| x.1).sum();
+    eprintln!("C16 box2 shapes={} cases={} ok={} t={:.1}s", shapes2.len(), box2_cases, box2_ok, ctx.elapsed_s());
+
+    // ---- im2col and batched ----
+    let mut c3 = Counts::default();
+    im2col_cases(&ctx, &execs, &mut c3);
+    let mut c4 = Counts::default();
+    batched_cases(&ctx, &execs, &mut c4);
+
+    // ---- history over the thread-local packing buffers ----
+    // Each kernel is driven through the whole shape list on ONE thread, in
+    // ascending and then descending size order (and interleaved big/small), so
+    // that each call reuses a packing buffer left by a larger and by a smaller
+    // predecessor.
+    let mut hist_shapes: Vec<(usize, usize, usize)> = shape_list.iter().copied().filter(|(m, k, n)| m * k * n <= (if thorough { 1 << 20 } else { 1 << 16 })).collect();
+    hist_shapes.sort_by_key(|(m, k, n)| (m * k + k * n, *m, *n));
+    let hist = vp_core::par::map(execs.len() * 3, |i| {
+        let execs = executors();
+        let exec = &execs[i / 3];
+        let order: Vec<(usize, usize, usize)> = match i % 3 {
+            0 => hist_shapes.clone(),
+            1 => hist_shapes.iter().rev().copied().collect(),
+            _ => {
+                // alternate largest / smallest
+                let mut v = Vec::new();
+                let (mut lo, mut hi) = (0usize, hist_shapes.len());
+                while lo < hi {
+                    hi -= 1;
+                    v.push(hist_shapes[hi]);
+                    if lo < hi {
+                        v.push(hist_shapes[lo]);
+                        lo += 1;
+                    }
+                }
+                v
+            }
+        };
+        let pool = rten::ThreadPool::with_num_threads(1);
+        let (mut cases, mut ok) = (0u64, 0u64);
+        pool.run(|| {
+            for (step, (m, k, n)) in order.iter().copied().enumerate() {
+                let s = ref_product(m, k, n);
+                let c = Case { kernel: exec.kernel_name().to_string(), threads: 1, entry: "gemm", m, k, n, a_lay: if step % 2 == 0 { Lay::Row } else { Lay::Col }, b_lay: if step % 3 == 0 { Lay::Col } else { Lay::Row }, a_packed: false, b_form: "unpacked", alpha: 1.0, beta: 0.0, bias: Bias::None };
+                let o = run_case(exec, &c, &s);
+                cases += 1;
+                match o {
+                    Outcome::Ok => ok += 1,
+                    other => {
+                        // the same case passed in isolation in box 1 iff the history matters
+                        let mut cj = c.json();
+                        cj["history_order"] = json!(["ascending", "descending", "alternating"][i % 3]);
+                        cj["history_step"] = json!(step);
+                        let (what, detail) = match other {
+                            Outcome::Bad(w, d) => (w, d),
+                            Outcome::PanicAt(s, p) => (format!("{s} panics"), p),
+                            Outcome::Ok => unreachable!(),
+                        };
+                        ctx.violation(format!("gemm f32 kernel={} history (reused thread-local packing buffers): {what}", exec.kernel_name()), cj, format!("step {step} of {} order, shape {m}x{k}x{n}: {detail}", ["ascending", "descending", "alternating"][i % 3]));
+                    }
+                }
+            }
+        });
+        (cases, ok)
+    });
+    let hist_cases: u64 = hist.iter().map(|x| x.0).sum();
+    let hist_ok: u64 = hist.iter().map(|x| x.1).sum();
+    eprintln!("C16 history cases={} ok={} t={:.1}s", hist_cases, hist_ok, ctx.elapsed_s());
+
+    let total = box1_cases + box2_cases + c3.cases + c4.cases + hist_cases;
+    let total_ok = box1_ok + box2_ok + c3.ok + c4.ok + hist_ok;
+    if total_ok < total / 2 || box1_ok == 0 {
+        ctx.machinery("C16 vacuous: most cases did not reach the oracle");
+    }
+    println!("C16 summary: kernels={:?} cases={} correct={} (box1 {} box2 {} im2col {} batched {} history {})", kernel_names, total, total_ok, box1_cases, box2_cases, c3.cases, c4.cases, hist_cases);
+    let coverage = json!({
+        "evaluations": total,
+        "distinct_nontrivial": total_ok,
+        "rule": "box1: every (m,n,k) of the size lists x every kernel x A,B layouts (all 16 combinations while m*k*n <= limit, 4 diagonal combinations above) x {1 thread, 4 threads for multi-block shapes}; box2: 64-80 shapes x alpha x beta x bias x {gemm,gemm_uninit} x A/B {unpacked,prepacked} (+ all B layouts on the gemv path); im2col geometries; batched incl. mismatched members; 3 history orders per kernel on one thread",
+        "exhaustive": true,
+        "axes": {
+            "kernels": kernel_names,
+            "m_n_values": mn, "k_values": ks,
+            "layouts": LAYS.iter().map(|l| l.name()).collect::<Vec<_>>(),
+            "full_layout_product_limit_mkn": full_layout_limit,
+            "alphas": alphas, "betas": betas, "bias": ["none", "row", "column"],
+            "box2_shapes": shapes2.len(),
+            "im2col_geometries": 4, "batch_sizes": [0, 1, 3],
+            "history_orders": ["ascending", "descending", "alternating"], "history_shapes": hist_shapes.len(),
+        },
+        "cases": {"box1": box1_cases, "box2": box2_cases, "im2col": c3.cases, "batched": c4.cases, "history": hist_cases},
+        "correct": total_ok,
+        "samples": samples.take(),
+    });
+    ctx.finish(
+        "exploration",
+        coverage,
+        vec![
+            "operand values are small integers (|a|<=5, |b|<=4), alpha/beta dyadic: every partial sum is exact in f32, so equality is the oracle for any summation order".into(),
+            "storage slots not addressed by a strided layout hold NaN, so reading padding shows up in the result".into(),
+            "threading through rten::ThreadPool::with_num_threads (rayon pool installed around the call); 1 thread = the non-parallel path with the caller-thread packing buffers".into(),
+            "BlockQuantized B inputs are covered by C37; quantized int8 kernels by C17".into(),
+        ],
+    );
 }
